@@ -16,10 +16,10 @@ RULE = (
     "callable matchers; timeout 0 | 3..40 ticks, 0 being the used-up remaining budget max(0.0, deadline - now) that must raise TimeoutError in the next loop iteration; start tick; optional cancellation tick) and <=8 incoming messages over the server "
     "connection and two peer connections of a real Network on the in-memory TCP layer (matching one, several or no "
     "request; wrong peer; right class wrong field; optionally glued to the previous message in one TCP segment so "
-    "both are processed back-to-back; optionally the expected peer's message connection closes by EOF / reset and the peer comes back on a fresh connection 0..4 ticks later, replies then travel over the new connection; the close happens BEFORE what is written in its tick (that then travels over the new connection) or AFTER it (message + FIN in the same instant on the existing connection: what was written before the FIN is delivered and handled, TCP is ordered); the server may close its connection in the same two ways (it does not come back: what it would have sent later is not part of the history); optionally a peer delivers a message over a connection of its own that it opens for it (PeerInit + message(s) in one segment or in two writes of the same instant, optionally + FIN in the same instant: a reply from the expected peer whatever connection carries it); optionally application listeners of MessageReceivedEvent that raise (function / coroutine, at once or after zero-length waits); optionally 1..2 application listeners of MessageReceivedEvent that really SUSPEND: the k-th message of a connection keeps the listener busy for plan[k mod len(plan)] = nothing | 1..5 loop iterations | 0.2..3.0 ms of virtual time (connections only close by EOF in such cases, so the FIN can arrive while the reader is still busy and further messages wait in the read buffer); optionally create_peer_connection('a'|'b') calls that need the same GetPeerAddress reply and are cancelled a few ticks later), all on a 1 ms tick grid with 1 ms latency. Oracle (reference model, first "
+    "both are processed back-to-back; optionally the expected peer's message connection closes by EOF / reset and the peer comes back on a fresh connection 0..4 ticks later, replies then travel over the new connection; the close happens BEFORE what is written in its tick (that then travels over the new connection) or AFTER it (message + FIN in the same instant on the existing connection: what was written before the FIN is delivered and handled, TCP is ordered); the server may close its connection in the same two ways (it does not come back: what it would have sent later is not part of the history); optionally a peer delivers a message over a connection of its own that it opens for it (PeerInit + message(s) in one segment or in two writes of the same instant, optionally + FIN in the same instant: a reply from the expected peer whatever connection carries it); optionally application listeners of MessageReceivedEvent that raise (function / coroutine, at once or after zero-length waits); optionally 1..2 application listeners of MessageReceivedEvent that really SUSPEND: the k-th message of a connection keeps the listener busy for plan[k mod len(plan)] = nothing | 1..5 loop iterations | 0.2..3.0 ms of virtual time (connections only close by EOF in such cases, so the FIN can arrive while the reader is still busy and further messages wait in the read buffer); optionally create_peer_connection('a'|'b') calls that need the same GetPeerAddress reply and are cancelled a few ticks later; in 1 case of 5 a SECOND Network object lives in the same process and loop (own EventBus, own session on the simulated server, own connections of the same two peer user names): about half of the incoming messages are then delivered to the second network only and a quarter of the requests are registered on it), all on a 1 ms tick grid with 1 ms latency. Oracle (reference model, first "
     "match, derived from DataConnection._message_reader_loop / Network.on_message_received / EventBus.emit): the messages of a connection OBJECT are handled strictly one after the other in arrival order (different connection objects of one peer are handled independently; two matching messages handled in the same instant on different objects are a tie); the handling of a message starts at max(its arrival, end of the handling of the previous message of that connection) and ends after the sum of the listener suspensions, and the pending requests see the message at the END of its handling (exact integer microseconds; without suspending listeners that is the arrival). A request completes with the first message whose handling ends strictly after its registration and strictly "
     "before its deadline/cancellation that has the expected class, comes from the expected server/peer connection "
-    "and satisfies all field matchers (the completing message is identified as an OBJECT: the k-th object handed to on_message_received for a connection is the k-th message sent on it, so a later equal-valued message is told apart); the order in which the handling of the messages of a connection ends, and the order in which a recording listener registered behind the others sees them, equals the arrival order; otherwise TimeoutError (cancelled caller: CancelledError) and never another "
+    "and satisfies all field matchers and was received by the Network object the request was registered on (a message that only the other Network received, same class / peer name / field values, completes nothing here: C12/completed-by-message-of-another-network, C12/wrong-connection; residue and probe are checked for each network, and a probe request of network 0 must not be completed by a message sent to network 1) (the completing message is identified as an OBJECT: the k-th object handed to on_message_received for a connection is the k-th message sent on it, so a later equal-valued message is told apart); the order in which the handling of the messages of a connection ends, and the order in which a recording listener registered behind the others sees them, equals the arrival order; otherwise TimeoutError (cancelled caller: CancelledError) and never another "
     "exception; every request is over 200 ms after the start of the history (C12/request-never-finished otherwise: a hung caller); on_message_received never raises; afterwards the pending list is empty, the loop recorded no "
     "error, and a probe request registered after the history is still completed by its reply. Events that fall on "
     "the same instant as a registration/deadline/cancellation are ties: both orders are accepted. Non-trivial = two "
@@ -41,7 +41,11 @@ ASSUMPTIONS = [
     "hands data and EOF to the reader in consecutive loop iterations of one virtual instant",
     "a wait with timeout 0 is legal (remaining-budget idiom) and raises TimeoutError; a message handled in the very "
     "instant of the registration is a tie",
-    "the server closing its connection by EOF is not followed by a reconnect (Network stops the watchdog on EOF)",
+    "the server closing its connection by EOF is not followed by a reconnect (Network stops the watchdog on EOF); a "
+    "server close is not combined with create_peer_connection() calls: a request written to the closed socket is answered "
+    "by a RST which discards what the client has not read yet (loss by the network, not by the library)",
+    "several Network objects in one process are independent: nothing in the library documents shared state between "
+    "them; the second network has no listeners and its connections never close",
     "the echo of a room message / ticker carries the name of the logged-in (session) user; credentials stored in the "
     "settings afterwards are for the next login and do not change what answers a pending command",
 ]
@@ -182,13 +186,27 @@ def case_strategy(draw):
     connects = draw(st.lists(st.fixed_dictionaries({'user': st.sampled_from(USERS), 'at': st.integers(0, 12),
                                                     'cancel': st.integers(1, 14)}), max_size=2)) \
         if draw(st.integers(0, 2)) == 0 else []
-    return {'requests': reqs, 'incoming': inc, 'reconn': reconn, 'listeners': listeners, 'connects': connects}
+    if connects:
+        reconn = [e for e in reconn if e['conn'] != 'server']   # see _sanitise: a write to a closed socket -> RST
+    case = {'requests': reqs, 'incoming': inc, 'reconn': reconn, 'listeners': listeners, 'connects': connects}
+    if draw(st.integers(0, 4)) == 0:
+        # a SECOND Network object lives in the same process (own event bus, own server session, own connections of
+        # the same two peer users): what one network receives never answers a request of the other one
+        case['net2'] = True
+        for m in inc:
+            if 'via' not in m and draw(st.integers(0, 1)) == 0:
+                m['net'] = 1
+        for r in reqs:
+            if draw(st.integers(0, 3)) == 0:
+                r['net'] = 1
+    return case
 
 
 # ---------------------------------------------------------------------------
 
 def _sanitise(case):
     reqs, inc = [], []
+    net2 = bool(case.get('net2'))
     for r in (case.get('requests') or [])[:4]:
         try:
             conn = r['conn'] if r['conn'] in ('server', 'peer0', 'peer1') else 'server'
@@ -209,7 +227,8 @@ def _sanitise(case):
             reqs.append({'api': r['api'] if r.get('api') in APIS else 'wait', 'conn': conn, 'cls': name,
                          'fields': fields, 'timeout': max(0, min(60, int(r.get('timeout', 5)))),
                          'at': max(0, min(30, int(r.get('at', 0)))),
-                         'cancel': None if cancel is None else max(1, min(40, int(cancel)))})
+                         'cancel': None if cancel is None else max(1, min(40, int(cancel))),
+                         'net': 1 if (net2 and r.get('net') == 1) else 0})
         except Exception:
             continue
     for m in (case.get('incoming') or [])[:8]:
@@ -222,9 +241,11 @@ def _sanitise(case):
             for k, dom in FIELDS[name].items():
                 v = (m.get('values') or {}).get(k, dom[0])
                 values[k] = v if (v in dom and type(v) is type(dom[0])) else dom[0]
+            net = 1 if (net2 and m.get('net') == 1) else 0
             inc.append({'conn': conn, 'cls': name, 'values': values, 'at': max(0, min(40, int(m.get('at', 0)))),
-                        'glue': bool(m.get('glue')),
-                        'via': m.get('via') if (conn != 'server' and m.get('via') in ('fresh', 'fresh2')) else 'main',
+                        'glue': bool(m.get('glue')), 'net': net,
+                        'via': m.get('via') if (conn != 'server' and net == 0 and
+                                                m.get('via') in ('fresh', 'fresh2')) else 'main',
                         'fin': bool(m.get('fin'))})
         except Exception:
             continue
@@ -246,12 +267,16 @@ def _sanitise(case):
     # with suspending listeners connections only close by EOF: a reset would discard the messages that still wait in
     # the read buffer
     suspending = any(isinstance(x, dict) for x in listeners)
+    has_connects = any(isinstance(e, dict) for e in (case.get('connects') or [])[:3])
     for e in sorted((e for e in (case.get('reconn') or [])[:3] if isinstance(e, dict)),
                     key=lambda e: (int(e.get('at', 0)) if isinstance(e.get('at', 0), int) else 0)):
         try:
             conn = e['conn'] if e.get('conn') in ('peer0', 'peer1', 'server') else 'peer0'
-            if conn == 'server' and 'server' in last_open:
-                continue            # the server does not come back
+            if conn == 'server' and ('server' in last_open or has_connects):
+                # the server does not come back.  No server close together with create_peer_connection() calls: what
+                # the client writes to a closed socket is answered by a RST, and a RST discards what the client has not
+                # read yet (the network, not the library, loses the message then)
+                continue
             at = max(0, min(40, int(e.get('at', 0))))
             gap = 0 if conn == 'server' else max(0, min(6, int(e.get('gap', 0))))
             if conn in last_open and at <= last_open[conn]:
@@ -268,13 +293,13 @@ def _sanitise(case):
     # Messages over a connection of their own ('fresh') do not depend on the peer's main connection.
     for m in inc:
         for e in reconn:
-            if m['conn'] == e['conn'] and m['conn'] != 'server' and m['via'] == 'main' and \
+            if m['conn'] == e['conn'] and m['conn'] != 'server' and m['via'] == 'main' and m['net'] == 0 and \
                     e['at'] + (1 if e['order'] == 'after' else 0) <= m['at'] < e['at'] + e['gap']:
                 m['at'] = e['at'] + e['gap']
     # what the server would have sent after it closed the connection is never sent
     for e in reconn:
         if e['conn'] == 'server':
-            inc = [m for m in inc if not (m['conn'] == 'server' and
+            inc = [m for m in inc if not (m['conn'] == 'server' and m['net'] == 0 and
                                           (m['at'] > e['at'] or (m['at'] == e['at'] and e['order'] == 'before')))]
     connects = []
     for e in (case.get('connects') or [])[:3]:
@@ -284,7 +309,7 @@ def _sanitise(case):
                              'cancel': max(1, min(40, int(e.get('cancel', 1))))})
         except Exception:
             continue
-    return reqs, inc, reconn, listeners, connects
+    return reqs, inc, reconn, listeners, connects, net2
 
 
 def _field_ok(matcher, actual):
@@ -294,8 +319,8 @@ def _field_ok(matcher, actual):
 
 
 def _matches(req, msg):
-    if req['conn'] != msg['conn'] or req['cls'] != msg['cls']:
-        return False
+    if req['conn'] != msg['conn'] or req['cls'] != msg['cls'] or req.get('net', 0) != msg.get('net', 0):
+        return False        # what another Network object received answers nothing here
     return all(_field_ok(m, msg['values'][k]) for k, m in req['fields'].items())
 
 
@@ -305,7 +330,7 @@ def run_case(case) -> CaseResult:
         from checks import c12_cmd
         c12_cmd.run_cmd_case(case, res)
         return res
-    reqs, inc, reconn, listeners, connects = _sanitise(case)
+    reqs, inc, reconn, listeners, connects, net2 = _sanitise(case)
     if not reqs:
         return res
     from async_timeout import timeout as atimeout
@@ -318,10 +343,11 @@ def run_case(case) -> CaseResult:
     inc_sorted = sorted(enumerate(inc), key=lambda im: (im[1]['at'], im[0]))
     segments = []   # {tick, conn, idxs, via, fin, proc}
     for i, m in inc_sorted:
-        if m['glue'] and segments and segments[-1]['conn'] == m['conn']:
+        if m['glue'] and segments and segments[-1]['conn'] == m['conn'] and segments[-1]['net'] == m['net']:
             segments[-1]['idxs'].append(i)
         else:
-            segments.append({'tick': m['at'], 'conn': m['conn'], 'idxs': [i], 'via': m['via'], 'fin': m['fin']})
+            segments.append({'tick': m['at'], 'conn': m['conn'], 'idxs': [i], 'via': m['via'], 'fin': m['fin'],
+                             'net': m['net']})
 
     def _generation(conn, tick):
         # number of re-openings of the peer's main connection that precede the data written at ``tick``: a connection
@@ -339,7 +365,9 @@ def run_case(case) -> CaseResult:
     proc_of = {}    # msg index -> connection OBJECT that carries it (label)
     order = []
     for sg in segments:
-        if sg['conn'] == 'server':
+        if sg['net'] == 1:
+            sg['proc'] = 'B:' + sg['conn']     # the second network: one connection per server / peer, never closed
+        elif sg['conn'] == 'server':
             sg['proc'] = 'server'
         elif sg['via'] == 'main':
             sg['proc'] = '%s#m%d' % (sg['conn'], _generation(sg['conn'], sg['tick']))
@@ -367,7 +395,7 @@ def run_case(case) -> CaseResult:
             a = arrival[i] * 1000
             if prev_end > a:
                 waited.add(i)
-            d = sum((p[k % len(p)] if p[k % len(p)] > 5 else 0) for p in plans)
+            d = 0 if conn.startswith('B:') else sum((p[k % len(p)] if p[k % len(p)] > 5 else 0) for p in plans)
             handled_at[i] = prev_end = max(a, prev_end) + d
     pos = {i: n for n, i in enumerate(order)}
     order = sorted(order, key=lambda i: (handled_at[i], pos[i]))    # order in which requests see the messages
@@ -382,26 +410,36 @@ def run_case(case) -> CaseResult:
         loop = world.loop
         settings = simworld.mk_settings('me')
         network = Network(settings, EventBus())
-        orig = network.on_message_received
+        # optionally a second, independent Network object in the same process / loop
+        settings2 = simworld.mk_settings('me2', port=60002, obfuscated_port=60003) if net2 else None
+        network2 = Network(settings2, EventBus()) if net2 else None
+        nets = [network] + ([network2] if net2 else [])
 
         portmap = {}    # (peer name, source port of the scripted link) -> label of the connection object
 
         def ckey(connection):
             if connection is network.server_connection:
                 return 'server'
+            if net2 and connection is network2.server_connection:
+                return 'B:server'
             return portmap.get((getattr(connection, 'username', None), getattr(connection, 'port', None)))
 
-        async def guarded(message, connection):
-            key = ckey(connection)
-            entered.setdefault(key, []).append(message)     # order in which the reader hands the messages over
-            try:
-                return await orig(message, connection)
-            except Exception as exc:  # what the reader loop would log as "error during callback"
-                cb_errors.append((round(loop.time(), 6), type(exc).__name__, repr(message)))
-                raise
-            finally:
-                finished.append((key, message))             # order in which their handling ends
-        network.on_message_received = guarded
+        def guard(nw):
+            orig = nw.on_message_received
+
+            async def guarded(message, connection):
+                key = ckey(connection)
+                entered.setdefault(key, []).append(message)     # order in which the reader hands the messages over
+                try:
+                    return await orig(message, connection)
+                except Exception as exc:  # what the reader loop would log as "error during callback"
+                    cb_errors.append((round(loop.time(), 6), type(exc).__name__, repr(message)))
+                    raise
+                finally:
+                    finished.append((key, message))             # order in which their handling ends
+            nw.on_message_received = guarded
+        for nw in nets:
+            guard(nw)
         from aioslsk.events import MessageReceivedEvent
         keep = []
 
@@ -449,16 +487,26 @@ def run_case(case) -> CaseResult:
             world.server.handlers[M.ConnectToPeer.Request] = lambda srv, i, m: True
         await network.initialize()
         network.server_connection.start_reader_task()
+        eps = {'server': world.server.sessions[-1]}
+        if net2:
+            await network2.initialize()
+            network2.server_connection.start_reader_task()
+            eps['B:server'] = world.server.sessions[-1]
         peers = []
         for k in range(2):
             p = world.add_peer('peer%d' % k)
             link = p.connect('P', port=settings.network.listening.port)
             peers.append(link)
             portmap[(p.name, link.ep.link.sides[1].get_extra_info('peername')[1])] = '%s#m0' % p.name
+            eps[p.name] = link.ep
+            if net2:
+                # the same peer user also has a connection to the second network
+                link2 = p.connect('P', port=settings2.network.listening.port)
+                portmap[(p.name, link2.ep.link.sides[1].get_extra_info('peername')[1])] = 'B:%s' % p.name
+                eps['B:' + p.name] = link2.ep
         opened = {'peer0': 0, 'peer1': 0}
         await asyncio.sleep(0.01)
         t0 = loop.time()
-        eps = {'server': world.server.sessions[-1], 'peer0': peers[0].ep, 'peer1': peers[1].ep}
 
         def fields_of(r):
             out = {}
@@ -477,27 +525,28 @@ def run_case(case) -> CaseResult:
             cls = _cls(r['cls'])
             timeout = r['timeout'] * TICK
             peer = None if r['conn'] == 'server' else r['conn']
+            nw = nets[r['net']]
             try:
                 if r['api'] == 'wait':
                     if peer is None:
-                        msg = await network.wait_for_server_message(cls, fields=fields_of(r), timeout=timeout)
+                        msg = await nw.wait_for_server_message(cls, fields=fields_of(r), timeout=timeout)
                     else:
-                        msg = await network.wait_for_peer_message(peer, cls, fields=fields_of(r), timeout=timeout)
+                        msg = await nw.wait_for_peer_message(peer, cls, fields=fields_of(r), timeout=timeout)
                 else:
                     if r['api'] == 'future':
-                        fut = network.create_server_response_future(cls, fields=fields_of(r)) if peer is None else \
-                            network.create_peer_response_future(peer, cls, fields=fields_of(r))
+                        fut = nw.create_server_response_future(cls, fields=fields_of(r)) if peer is None else \
+                            nw.create_peer_response_future(peer, cls, fields=fields_of(r))
                     else:
                         fut = ExpectedResponse(ServerConnection if peer is None else PeerConnection, cls,
                                                peer=peer, fields=fields_of(r))
-                        network.register_response_future(fut)
+                        nw.register_response_future(fut)
                     async with atimeout(timeout):
                         conn, msg = await fut
-                    want_conn = network.server_connection if peer is None else None
+                    want_conn = nw.server_connection if peer is None else None
                     if want_conn is not None and conn is not want_conn:
                         outcomes[idx] = ('wrong-connection', repr(conn))
                         return
-                    if peer is not None and getattr(conn, 'username', None) != peer:
+                    if peer is not None and (getattr(conn, 'username', None) != peer or conn.network is not nw):
                         outcomes[idx] = ('wrong-connection', repr(conn))
                         return
                 outcomes[idx] = ('msg', msg)
@@ -550,7 +599,9 @@ def run_case(case) -> CaseResult:
                     (4 if (after and e['gap'] == 0) else 1, e['conn'], ('open',)))
         for sg in segments:
             data = b''.join(_build(inc[i]['cls'], inc[i]['values']).serialize() for i in sg['idxs'])
-            if sg['via'] == 'main':
+            if sg['net'] == 1:
+                by_tick.setdefault(sg['tick'], []).append((2, 'B:' + sg['conn'], data))
+            elif sg['via'] == 'main':
                 by_tick.setdefault(sg['tick'], []).append((2, sg['conn'], data))
             else:
                 by_tick.setdefault(sg['tick'], []).append((2, sg['conn'], ('fresh', sg['via'], sg['fin'], sg['proc'],
@@ -597,7 +648,9 @@ def run_case(case) -> CaseResult:
         await asyncio.gather(*tasks, *cancels, return_exceptions=True)
         for i in hung:
             outcomes.pop(i, None)
-        residue = len(network._expected_response_futures)
+        residue = len(network._expected_response_futures) + \
+            (len(network2._expected_response_futures) if net2 and
+             network2._expected_response_futures is not network._expected_response_futures else 0)
         rec['entered'] = {k: list(v) for k, v in entered.items()}
         rec['finished'] = list(finished)
         rec['seen'] = list(seen)
@@ -609,15 +662,34 @@ def run_case(case) -> CaseResult:
             peers[0].send_msg(M.PeerUploadFailed.Request('probe'))
         else:
             probe = network.create_server_response_future(M.GetUserStatus.Response, fields={'username': 'probe'})
-            world.server.send(M.GetUserStatus.Response('probe', 1, False))
+            eps['server'].send(M.GetUserStatus.Response('probe', 1, False).serialize())
         probe_ok = True
         try:
             async with atimeout(0.05):
                 await probe
         except BaseException:
             probe_ok = False
+        if net2 and probe_ok:
+            # the second network still works as well; the probe of one network is not answered via the other
+            probe2 = network2.create_server_response_future(M.GetUserStatus.Response, fields={'username': 'probe'})
+            cross = network.create_peer_response_future('peer1', M.PeerUploadFailed.Request,
+                                                        fields={'filename': 'probe2'})
+            eps['B:server'].send(M.GetUserStatus.Response('probe', 1, False).serialize())
+            eps['B:peer1'].send(M.PeerUploadFailed.Request('probe2').serialize())
+            try:
+                async with atimeout(0.05):
+                    await probe2
+            except BaseException:
+                probe_ok = False
+            await asyncio.sleep(0.01)
+            if cross.done() and not cross.cancelled():
+                rec['cross_probe'] = True
+            cross.cancel()
+            await asyncio.sleep(0)
         reader_alive = network.server_connection._reader_task is not None and \
             not network.server_connection._reader_task.done()
+        if net2:
+            await network2.disconnect()
         await network.disconnect()
         return residue, probe_ok, reader_alive
 
@@ -643,6 +715,8 @@ def run_case(case) -> CaseResult:
             if what == 'seen-by-listener' and not listeners:
                 continue
             for conn in sorted(seq):
+                if what == 'seen-by-listener' and conn.startswith('B:'):
+                    continue        # the listeners are registered on the event bus of the first network
                 got_seq = [objmap.get(id(obj)) for key, obj in rows if key == conn]
                 if got_seq != seq[conn]:
                     res.violate('C12/messages-handled-out-of-order:' + what,
@@ -710,6 +784,11 @@ def run_case(case) -> CaseResult:
                 ok = got_mi in cands
                 if ok:
                     answered_by[i] = got_mi
+                elif inc[got_mi]['net'] != r['net']:
+                    res.violate('C12/completed-by-message-of-another-network',
+                                f'request {i} {r} (network {r["net"]}) completed with message #{got_mi} {got[1]!r} that '
+                                f'only network {inc[got_mi]["net"]} received')
+                    continue
                 elif _matches(r, inc[got_mi]):
                     res.violate('C12/completed-by-wrong-message',
                                 f'request {i} {r} completed with message #{got_mi} {got[1]!r} (handling ends at '
@@ -756,6 +835,9 @@ def run_case(case) -> CaseResult:
                     res.violate('C12/cancel-instead-of-timeout', f'request {i} {r}')
     if len(set(answered_by.values())) < len(answered_by):
         multi = True
+    if rec.get('cross_probe'):
+        res.violate('C12/completed-by-message-of-another-network:probe',
+                    'a request of network 0 for a message of peer1 was completed by a message that peer1 sent to network 1')
     if cb_errors:
         res.violate(f'C12/on-message-received-raised:{cb_errors[0][1]}', str(cb_errors[:3]))
     if residue:
@@ -793,6 +875,12 @@ def run_case(case) -> CaseResult:
         res.label('listener:' + (x if isinstance(x, str) else 'suspend'))
     if any(r['timeout'] == 0 for r in reqs):
         res.label('timeout-0')
+    if net2:
+        res.label('two-networks')
+        if any(_matches(dict(r, net=0), dict(inc[i], net=0)) and r['net'] != inc[i]['net']
+               for r in reqs for i in order):
+            res.label('message-received-by-the-other-network-would-answer-a-request')
+            res.nontrivial = True
     answering = lambda idxs: any(_matches(r, inc[i]) for r in reqs for i in idxs)    # noqa: E731
     for sg in segments:
         if sg['via'] != 'main':
@@ -905,7 +993,26 @@ def _close_glued_cases():
                                    'reconn': []}
 
 
+def _two_network_cases():
+    """Two Network objects in one process: a message that only the other network receives (same class, same peer user
+    name, same field values) does not complete a pending request; the own answer that follows does."""
+    for api in APIS:
+        for conn, name, vals in (('server', 'GetUserStatus', {'username': 'a', 'status': 1, 'privileged': False}),
+                                 ('peer0', 'PeerUploadFailed', {'filename': 'f'})):
+            key = 'username' if conn == 'server' else 'filename'
+            for rnet in (0, 1):
+                for own_at in (None, 9):
+                    inc = [{'conn': conn, 'cls': name, 'values': vals, 'at': 4, 'glue': False, 'net': 1 - rnet}]
+                    if own_at is not None:
+                        inc.append({'conn': conn, 'cls': name, 'values': vals, 'at': own_at, 'glue': False,
+                                    'net': rnet})
+                    yield {'requests': [{'api': api, 'conn': conn, 'cls': name, 'fields': {key: vals[key]},
+                                         'timeout': 30, 'at': 0, 'cancel': None, 'net': rnet}],
+                           'incoming': inc, 'reconn': [], 'listeners': [], 'connects': [], 'net2': True}
+
+
 def run_shard(ctx):
+    ctx.enumerate(_two_network_cases())
     ctx.enumerate(_shared_reply_cases())
     ctx.enumerate(_suspending_cases())
     ctx.enumerate(_timeout0_cases())
@@ -919,7 +1026,7 @@ def run_shard(ctx):
 MANIFEST_ENTRY = {
     'technique': 'property-based testing (Hypothesis): generated request multisets and incoming message schedules '
                  '(glued segments, raising and suspending application listeners, reconnecting peers, message + FIN in one '
-                 'instant, replies over a connection of their own, timeout 0, concurrent '
+                 'instant, replies over a connection of their own, timeout 0, a second Network object in the process, concurrent '
                  'address lookups) on a virtual-time loop with in-memory TCP, first-match reference model as oracle; '
                  'second tier: generated execute(command, response=True) scripts incl. a run-time credentials change',
     'level_text': 'Generated-schedule exploration of the real Network request/response matching through real '
